@@ -100,4 +100,23 @@ example : avgRank [1, 5, 5, 9] 5 = 5 / 2 := by decide +kernel
 example : avgRank ([1, 5, 5, 9].map (fun x => 2 * x + 1)) (2 * 5 + 1) = 5 / 2 := by decide +kernel
 example : StrictMono (fun x => 2 * x + 1) := affine_strictMono 2 1 (by decide +kernel)
 
+/-! ## The clause "an exact copy of the target is always returned" is false for a binary target
+
+  `scipy.stats.chi2_contingency` applies Yates' continuity correction to 2×2 tables only.  Cramér's V
+  of an exact two-class copy of a binary target is therefore below 1, while a three-category feature
+  that is almost a copy is not corrected and can rank above it; the correlation filter then drops
+  the copy.  The witness below is the table of `replays`/`known_findings.json` (C15-yates-2x2), with
+  the model's `chi2` (the function `C14` ties to the code's values). -/
+
+/-- 29 + 31 rows, the feature equals the target: V² = χ²/n -/
+def copyTable : List Row := [⟨29, 0, 0, false⟩, ⟨31, 31, 0, false⟩]
+/-- the competitor: categories (25, 0), (0, 30), (4, 1) -/
+def rivalTable : List Row := [⟨25, 0, 0, false⟩, ⟨30, 30, 0, false⟩, ⟨5, 1, 0, false⟩]
+
+/-- **Witness**: the exact copy of the target has a strictly smaller Cramér's V than the rival. -/
+theorem copy_outranked_by_yates :
+    (match chi2 copyTable, chi2 rivalTable with
+     | some c, some r => decide (c / 60 < 1 ∧ c / 60 < r / 60)
+     | _, _ => false) = true := by decide +kernel
+
 end C15
